@@ -1,58 +1,368 @@
+// C11 harness: a query returns what a naive model computes from the written points.
+//
+// Bounded exhaustive enumeration of write / flush / compact / reopen histories on a real tsdb.Engine ("node in a
+// box": real memdb, real kv files, real leaf task processor, real root plan / merge / expression evaluation), each
+// followed by a menu of queries whose results are compared with a reference model that stores every point
+// (model.go) and knows only the literal copies of the specification tables (tables.go).
 package main
 
 import (
 	"fmt"
 	"os"
-	"time"
+	"sort"
+	"strings"
 
-	"github.com/lindb/lindb/internal/vbox"
 	"github.com/lindb/lindb/internal/vevid"
-	"github.com/lindb/lindb/models"
-	"github.com/lindb/lindb/pkg/option"
-	"github.com/lindb/lindb/pkg/timeutil"
 )
 
 func main() {
 	f := vevid.ParseFlags()
 	rep := vevid.New("C11")
-	opt := &option.DatabaseOption{Intervals: option.Intervals{{Interval: timeutil.Interval(10_000), Retention: timeutil.Interval(3000 * 24 * 3600 * 1000)}}, AutoCreateNS: true}
-	b, err := vbox.Open(f.Scratch+"/eng", "db", opt, []models.ShardID{1, 2})
+	rep.Rule = "a case = one history over {write(series,slot), flush, compact, reopen} + the whole query menu; every (case, query) pair is one evaluation; " +
+		"a pair is non-trivial when the reference result is non-empty and at least one result point combines >= 2 points (same slot, same bucket or same group)"
+	checkTables()
+	w := openWorld(f.Scratch+"/eng", fmt.Sprintf("m%d_", f.Shard))
+	defer w.box.Close()
+
+	if len(f.Args) > 0 && f.Args[0] == "count" {
+		for _, tier := range []string{"quick", "thorough"} {
+			n, q, r := 0, 0, 0
+			forEachCase(boundsOf(tier), func(c Case) bool {
+				n++
+				c.Menu = tier
+				q += len(menuFor(c))
+				for _, s := range c.Steps {
+					if s.Op == "R" {
+						r++
+					}
+				}
+				return true
+			})
+			fmt.Fprintf(os.Stderr, "%s: cases=%d queries=%d reopens=%d\n", tier, n, q, r)
+		}
+		return
+	}
+	if len(f.Args) > 0 && f.Args[0] == "probe" {
+		probe(w, rep, f.Args[1:])
+		return
+	}
+	if f.Replay != "" {
+		var c Case
+		vevid.LoadReplay(f.Replay, &c)
+		for i := 0; i < 5; i++ {
+			runCase(w, rep, c)
+		}
+		rep.Write()
+		return
+	}
+	tier := "quick"
+	if f.Thorough() {
+		tier = "thorough"
+	}
+	b := boundsOf(tier)
+	rep.Bounds["histories_one_series"] = b.One
+	rep.Bounds["histories_two_series"] = b.Two
+	rep.Bounds["slots"] = b.slots
+	rep.Bounds["series"] = []string{"a", "b"}
+	rep.Bounds["gap_ops"] = gapOps
+	rep.Bounds["field_types"] = fieldTypes
+	rep.Bounds["ranges"] = rangeNames()
+	rep.Bounds["intervals_ms"] = intervals
+	var idx, mine int64
+	forEachCase(b, func(c Case) bool {
+		idx++
+		if !f.Mine(idx) {
+			return true
+		}
+		if f.Expired() {
+			rep.Cap(fmt.Sprintf("deadline at case %d", idx))
+			return false
+		}
+		c.Menu = tier
+		runCase(w, rep, c)
+		mine++
+		return true
+	})
+	rep.Extra["cases_total"] = idx
+	rep.Extra["sum_cases"] = mine
+	rep.Extra["sum_queries"] = w.queries
+	rep.Extra["sum_query_ms"] = w.queryNs / 1e6
+	rep.Extra["sum_step_ms"] = w.stepNs / 1e6
+	rep.Write()
+}
+
+func rangeNames() []string {
+	var out []string
+	for _, r := range ranges {
+		out = append(out, r.name)
+	}
+	return out
+}
+
+// checkTables: the copied tables must be self-consistent (a bare field reference is planned with
+// DownSamplingFunc and read with GetDefaultFuncFieldParams).
+func checkTables() {
+	for _, t := range fieldTypes {
+		if aggOf(t, "") != defaultAgg[t] {
+			vevid.Fatal("copied tables inconsistent for %s: %s vs %s", t, aggOf(t, ""), defaultAgg[t])
+		}
+	}
+}
+
+// ---------------------------------------------------------------------------------------------------
+
+func runCase(w *world, rep *vevid.Report, c Case) {
+	w.seq++
+	metric := fmt.Sprintf("%s%d", w.prefix, w.seq)
+	defer func() { // a panic inside lindb code for a legal input is a violation, not a harness crash
+		if r := recover(); r != nil {
+			rep.Violate(vevid.Violation{Clause: "panic", Scenario: c.opKinds(), Site: "case", Detail: fmt.Sprintf("%v\ncase: %s", r, c), Replay: c})
+		}
+	}()
+	w.housekeeping()
+	m, err := w.apply(c, metric)
 	if err != nil {
-		vevid.Fatal("open: %v", err)
+		// a write / flush / compaction / reopen that fails for a legal history: the points were not "accepted"
+		// the way the property assumes - report it, it is not a harness error
+		rep.Evaluations++
+		rep.Violate(vevid.Violation{Clause: "history-step-failed", Scenario: c.opKinds(), Site: "engine", Detail: fmt.Sprintf("%v\ncase: %s", err, c), Replay: c})
+		return
 	}
-	defer b.Close()
-	day := time.Now().UTC().Truncate(24*time.Hour).UnixMilli() - 24*3600*1000
-	base := day + 10*3600*1000
-	pts := []vbox.Point{
-		{Metric: "cpu", Tags: map[string]string{"host": "a"}, Field: "f1", Type: "sum", Value: 1, Timestamp: base + 5000},
-		{Metric: "cpu", Tags: map[string]string{"host": "a"}, Field: "f1", Type: "sum", Value: 2, Timestamp: base + 6000},
-		{Metric: "cpu", Tags: map[string]string{"host": "b"}, Field: "f1", Type: "sum", Value: 10, Timestamp: base + 25000},
+	rep.Sample(map[string]interface{}{"history": c.String(), "metric": metric})
+	qs := menuFor(c)
+	if c.Only != nil {
+		qs = []Query{*c.Only}
 	}
-	if err := b.Write(1, pts); err != nil {
-		vevid.Fatal("write: %v", err)
+	for _, q := range qs {
+		if selFilter != "" && !strings.Contains(q.sql("M"), selFilter) {
+			continue
+		}
+		evalQuery(w, rep, c, m, q, metric)
 	}
-	if err := b.Write(2, []vbox.Point{{Metric: "cpu", Tags: map[string]string{"host": "a"}, Field: "f1", Type: "sum", Value: 100, Timestamp: base + 15000}}); err != nil {
-		vevid.Fatal("write: %v", err)
+}
+
+// selFilter restricts the menu in probe mode (development aid).
+var selFilter = os.Getenv("C11_SEL")
+
+func evalQuery(w *world, rep *vevid.Report, c Case, m *model, q Query, metric string) {
+	rep.Evaluations++
+	exp := m.eval(q)
+	got, qerr := w.query(q, metric)
+	rc := c
+	rc.Only = &q
+	ftfn := q.Sels[0].F + "." + q.Sels[0].Fn
+	if len(q.Sels) > 1 {
+		ftfn = "multi"
 	}
-	tr := timeutil.TimeRange{Start: base, End: base + 60000}
-	if err := b.Flush(1, tr); err != nil {
-		vevid.Fatal("flush: %v", err)
+	viol := func(clause, ft, detail string) {
+		rep.Count("viol "+clause+" "+ft+"/"+c.opKinds(), 1)
+		rep.Violate(vevid.Violation{Clause: clause, Scenario: ft + "/" + c.opKinds(), Site: q.class(),
+			Detail: fmt.Sprintf("%s\nhistory: %s\nquery: %s", detail, c, q.sql("M")), Replay: rc})
 	}
-	_ = b.Write(1, []vbox.Point{{Metric: "cpu", Tags: map[string]string{"host": "a"}, Field: "f1", Type: "sum", Value: 7, Timestamp: base + 35000},
-		{Metric: "cpu", Tags: map[string]string{"host": "a"}, Field: "f1", Type: "sum", Value: 4, Timestamp: base + 5000}})
-	t0 := time.Now()
-	r := b.Query("select f1 from cpu group by host", tr, vbox.Layout{Leaves: []vbox.Leaf{{Node: "10.0.0.1:2891", Shards: []models.ShardID{1, 2}}}, CompleteAt: -1})
-	fmt.Fprintln(os.Stderr, "query took", time.Since(t0), "err", r.Err, "leafErrs", r.LeafErrs)
-	for _, l := range vbox.Canon(r.Result) {
-		fmt.Fprintln(os.Stderr, l)
+	if qerr != nil {
+		if len(exp) == 0 {
+			rep.Outcome("empty:error")
+			return
+		}
+		viol("query-error", ftfn, fmt.Sprintf("query failed: %v; reference expects %d points: %s", qerr, len(exp), renderExp(exp)))
+		rep.Outcome("error")
+		return
 	}
-	r = b.Query("select f1 from cpu group by host", tr, vbox.Layout{Leaves: []vbox.Leaf{{Node: "10.0.0.1:2891", Shards: []models.ShardID{1}}, {Node: "10.0.0.2:2891", Shards: []models.ShardID{2}}}, Order: []int{1, 0}, CompleteAt: 2})
-	fmt.Fprintln(os.Stderr, "2 leaves: err", r.Err, "leafErrs", r.LeafErrs)
-	for _, l := range vbox.Canon(r.Result) {
-		fmt.Fprintln(os.Stderr, l)
+	nontrivial := false
+	bad := map[string][]string{} // item -> messages
+	var keys []string
+	for k := range exp {
+		keys = append(keys, k)
 	}
-	rep.Evaluations = 2
-	rep.DistinctNontrivial = 2
-	rep.Sample("smoke")
+	sort.Strings(keys)
+	outcome := map[string]bool{}
+	for _, k := range keys {
+		e := exp[k]
+		if e.nslots > 1 || e.nplaces > 1 || e.nseries > 1 {
+			nontrivial = true
+		}
+		item := strings.Split(k, "|")[1]
+		g, ok := got[k]
+		if !ok {
+			bad[item] = append(bad[item], fmt.Sprintf("missing %s want %v", k, []float64(e.cands)))
+			continue
+		}
+		if !e.cands.has(g) {
+			bad[item] = append(bad[item], fmt.Sprintf("%s = %v want %v", k, g, []float64(e.cands)))
+		}
+		outcome[fmt.Sprintf("%s:s%dp%dg%d", item, min3(e.nslots), min3(e.nplaces), min3(e.nseries))] = true
+	}
+	var extra []string
+	for k := range got {
+		if _, ok := exp[k]; !ok {
+			extra = append(extra, k)
+		}
+	}
+	sort.Strings(extra)
+	for _, k := range extra {
+		item := strings.Split(k, "|")[1]
+		bad[item] = append(bad[item], fmt.Sprintf("unexpected %s = %v", k, got[k]))
+	}
+	if nontrivial {
+		rep.DistinctNontrivial++
+	}
+	if len(exp) == 0 {
+		rep.Outcome("empty")
+	}
+	for k := range outcome {
+		rep.Outcome(k)
+	}
+	if len(bad) > 0 {
+		alt := m.alt.eval(q)
+		var items []string
+		for it := range bad {
+			items = append(items, it)
+		}
+		sort.Strings(items)
+		for _, it := range items {
+			ft := it
+			var sel Sel
+			for _, s := range q.Sels {
+				if s.String() == it {
+					ft = s.F + "." + s.Fn
+					sel = s
+				}
+			}
+			clause := classify(q, sel, it, exp, alt, got)
+			viol(clause, ft, strings.Join(bad[it], "; ")+"\nreference: "+renderExp(exp)+"\nlindb:     "+renderGot(got))
+		}
+	}
+}
+
+// classify names the clause of a disagreement on one select item: a known deviation if the "as built" model
+// (altmodel.go) reproduces EVERY point of the item that lindb returned (and every missing one), else result-differs.
+func classify(q Query, sel Sel, item string, exp map[string]*expPoint, alt map[string]vset, got map[string]float64) string {
+	seen := map[string]int{}
+	for _, s := range q.Sels {
+		seen[s.F]++
+	}
+	if seen[sel.F] > 1 {
+		// several functions of one field in one select list: the field aggregator feeds every primitive value
+		// into every aggregate of the field (a single point is already wrong)
+		return "multi-function-same-field"
+	}
+	clauses := map[string]bool{}
+	for k, e := range exp {
+		if strings.Split(k, "|")[1] != item {
+			continue
+		}
+		g, ok := got[k]
+		a, aok := alt[k]
+		switch {
+		case ok && e.cands.has(g):
+			continue
+		case !ok && !aok:
+			clauses["memdb-miss-hides-files"] = true
+		case !ok || !aok || !a.has(g):
+			return "result-differs"
+		default:
+			agg := aggOf(sel.F, sel.Fn)
+			switch {
+			case agg != "last" && agg != "first":
+				clauses["place-partial-aggregate"] = true
+			case e.maxSeriesSlots > 1:
+				clauses["first-last-bucket-order"] = true
+			default:
+				clauses["first-last-slot-merge-order"] = true
+			}
+		}
+	}
+	for k := range got {
+		if strings.Split(k, "|")[1] == item {
+			if _, ok := exp[k]; !ok {
+				return "result-differs"
+			}
+		}
+	}
+	for _, c := range []string{"memdb-miss-hides-files", "place-partial-aggregate", "first-last-slot-merge-order", "first-last-bucket-order"} {
+		if clauses[c] {
+			return c
+		}
+	}
+	return "result-differs"
+}
+
+func min3(n int) int {
+	if n > 3 {
+		return 3
+	}
+	return n
+}
+
+func renderExp(exp map[string]*expPoint) string {
+	var keys []string
+	for k := range exp {
+		keys = append(keys, k)
+	}
+	sort.Strings(keys)
+	var sb strings.Builder
+	for _, k := range keys {
+		fmt.Fprintf(&sb, "%s=%v ", k, []float64(exp[k].cands))
+	}
+	return sb.String()
+}
+
+func renderGot(got map[string]float64) string {
+	var keys []string
+	for k := range got {
+		keys = append(keys, k)
+	}
+	sort.Strings(keys)
+	var sb strings.Builder
+	for _, k := range keys {
+		fmt.Fprintf(&sb, "%s=%v ", k, got[k])
+	}
+	return sb.String()
+}
+
+// probe: ad-hoc experiments while developing (./h probe <history> ; history like "a@same F a@same")
+func probe(w *world, rep *vevid.Report, args []string) {
+	c := Case{Menu: "quick"}
+	for _, a := range args {
+		if strings.Contains(a, "@") {
+			p := strings.Split(a, "@")
+			c.Steps = append(c.Steps, Step{Op: "w", Series: p[0], Slot: p[1]})
+		} else {
+			c.Steps = append(c.Steps, Step{Op: a})
+		}
+	}
+	if os.Getenv("C11_MENU") != "" {
+		c.Menu = os.Getenv("C11_MENU")
+	}
+	if ex := os.Getenv("C11_EXTRA"); ex != "" { // e.g. "sum:sum,sum:max" = one select list with two functions of one field
+		var sl []Sel
+		for _, it := range strings.Split(ex, ",") {
+			p := strings.Split(it, ":")
+			sl = append(sl, Sel{F: p[0], Fn: p[1]})
+		}
+		var qs []Query
+		for iv := range intervals {
+			for _, gb := range []bool{false, true} {
+				qs = append(qs, Query{Sels: sl, Range: 0, Ivl: iv, GB: gb})
+			}
+		}
+		menuCache["extra"] = qs
+		c.Menu = "extra"
+	}
+	runCase(w, rep, c)
+	fmt.Fprintf(os.Stderr, "evaluations=%d nontrivial=%d violations=%d queries=%d query_ms=%.2f/query step_ms=%d\n", rep.Evaluations, rep.DistinctNontrivial, rep.ViolationCount,
+		w.queries, float64(w.queryNs)/1e6/float64(w.queries), w.stepNs/1e6)
+	var cn []string
+	for k, n := range rep.Counters {
+		cn = append(cn, fmt.Sprintf("%s = %d", k, n))
+	}
+	sort.Strings(cn)
+	fmt.Fprintln(os.Stderr, strings.Join(cn, "\n"))
+	for _, v := range rep.Violations {
+		if os.Getenv("C11_VERBOSE") == "" {
+			break
+		}
+		fmt.Fprintf(os.Stderr, "VIOL %s | %s | %s\n   %s\n", v.Clause, v.Scenario, v.Site, strings.ReplaceAll(v.Detail, "\n", "\n   "))
+	}
 	rep.Write()
 }
